@@ -248,7 +248,15 @@ class Run:
                                                               port=4000 + j) for j in range(i))
                 ref1 = [refwire.ep4("10.0.7.1", 3999)] + [refwire.ep4("10.0.7.1", 4000 + j, proto=6) for j in range(i)]
             svc = C.Service(c["sid"], c["iid"], c["maj"], c["minor"], options_1=run1, options_2=o2, eventgroups=frozenset({1}))
-            self.insts.append(S.ServiceInstance(svc, S.ServerServiceListener(), self.prot.announcer, tm))
+            # the instance's Timings object is either complete when the instance is built, or - as applications that get their
+            # objects from helpers do - filled in afterwards by assigning its fields before anything is started
+            if (variant >> 17) & 1:
+                import dataclasses as _dc
+                itm = _dc.replace(tm, ANNOUNCE_TTL=5 if cfg["ttl"] != 5 else 6)
+                self.insts.append(S.ServiceInstance(svc, S.ServerServiceListener(), self.prot.announcer, itm))
+                itm.ANNOUNCE_TTL = cfg["ttl"]
+            else:
+                self.insts.append(S.ServiceInstance(svc, S.ServerServiceListener(), self.prot.announcer, tm))
             self.ref_opts.append(ref1)
             self.ref_opts2.append(r2)
         self.qlog = []  # ('q', seq, t, sid, iid, ttl, remote) | ('start', k) | ('ann_start',)
@@ -287,6 +295,10 @@ class Run:
                 ann.stop_announce_service(inst.service if self.stats["unannounce_calls"] % 2 else inst)
             elif k == "lost":
                 self.prot.connection_lost(None)
+            elif k == "set_ttl":
+                for inst in self.insts:
+                    inst.timings.ANNOUNCE_TTL = a["ttl"]
+                self.ttl_change = (self.h.loop.time(), a["ttl"])
             elif k == "find":
                 fl, sid = self.sess.next(a["peer"])
                 data = net.sd_bytes([net.find(*a["entry"])], sid, reboot=fl)
@@ -366,7 +378,9 @@ def judge(ctx, cfg, ninst, script, horizon, seed, replay, tags=()):
                 continue
             c = INSTS[k]
             kind = "stop" if e["ttl"] == 0 else "offer"
-            if e["maj"] != c["maj"] or e["val"] != c["minor"] or (kind == "offer" and (e["ttl"] != cfg["ttl"] or e["o1"] != run.ref_opts[k] or e["o2"] != run.ref_opts2[k])):
+            chg = getattr(run, "ttl_change", None)
+            want_ttl = chg[1] if chg is not None and msg["t"] >= chg[0] else cfg["ttl"]
+            if e["maj"] != c["maj"] or e["val"] != c["minor"] or (kind == "offer" and (e["ttl"] != want_ttl or e["o1"] != run.ref_opts[k] or e["o2"] != run.ref_opts2[k])):
                 bad("offer-content-differs-from-configuration", instance=k, entry=e, t=msg["t"])
             obs[k].append(dict(t=msg["t"], kind=kind, dst=msg["dst"], ttl=e["ttl"]))
 
@@ -518,6 +532,11 @@ def single_scenario(cfg, kind, j, pl):
         script.append((t, rank, dict(kind="unannounce", k=0)))
     elif kind == "stop_restart":
         script.append((t, rank, dict(kind="ann_stop")))
+        if j % 2:
+            # while everything is stopped the application reconfigures the TTL its instances offer with (assigning the field of
+            # their Timings): the next run offers - and answers - with the new value
+            script.append((t + 0.1875, BEFORE, dict(kind="set_ttl", ttl=(cfg["ttl"] + 1) if cfg["ttl"] < 0xFFFFF0 else 0xFFFFFE)))
+            tags.append("ttl_reconfigured_between_two_runs")
         script.append((t + 0.375, BEFORE, dict(kind="ann_start")))
         tags.append("restart_scenarios")
     elif kind == "find_uc":
